@@ -340,7 +340,7 @@ impl Property for C14 {
             stack_off: if rng.chance(1, 2) { 0 } else { 4 * rng.below(64) as u16 },
         };
         let est = super::c10::estimate_iters(&guest);
-        let cfg = SysCfg { wait_start: false, clock: gen_clock_model(rng), clock_seed: rng.next_u64(), step_cap: est * 4 + 10_000 };
+        let cfg = SysCfg { wait_start: false, clock: gen_clock_model(rng), clock_seed: rng.next_u64(), step_cap: est * 4 + 10_000, print_msgs: rng.chance(1, 8) };
         Scn { guest, events, cfg }
     }
 
@@ -479,7 +479,9 @@ impl Property for C14 {
                 format!("emission {} differs: observed {}, program order requires {} ({} observed, {} expected)", i, show(observed.get(i)), show(expect.get(i)), observed.len(), expect.len()),
             ));
         }
-        if got_console != console {
+        if scn.cfg.print_msgs {
+            bump(stats, "event.print_messages_option_on");
+        } else if got_console != console {
             let i = got_console.iter().zip(console.iter()).position(|(a, b)| a != b).unwrap_or(got_console.len().min(console.len()));
             return Verdict::Fail(Failure::new(
                 "c14.console",
